@@ -255,8 +255,11 @@ class Scope:
                 await self._await_children()
             except BaseException as err:
                 self._close_scope()
-                if self._propagate_exceptions(type(err), err):
-                    raise
+                try:
+                    if self._propagate_exceptions(type(err), err):
+                        raise
+                finally:
+                    self._handled_on_entry = None
                 return True
         # there was an exception, we have to abandon the scope fast
         # we do not want interrupts that conflict with our current exception
@@ -264,7 +267,10 @@ class Scope:
             self._body_done._value = True
             self._body_done.__trigger__()
         self._close_scope()
-        return not self._propagate_exceptions(exc_type, exc_val)
+        try:
+            return not self._propagate_exceptions(exc_type, exc_val)
+        finally:
+            self._handled_on_entry = None
 
     def _close_scope(self):
         """Ultimately close the scope, its interrupts and all children"""
@@ -317,11 +323,16 @@ class Scope:
             # An interrupt that was being handled already where the scope was entered
             # (``finally: async with until(...):``) is merely the context of ours.
             replaced = getattr(exc_val, '__context__', None)
-            # interrupts of blocks that have ended meanwhile are revoked: look behind them
+            # Interrupts of blocks that have ended meanwhile are revoked, and the clean-up
+            # may have been busy handling an exception of its own: look behind these.
             while (
-                isinstance(replaced, CoreInterrupt)
+                replaced is not None
                 and replaced is not self._handled_on_entry
-                and (not replaced or self._is_suppressed(replaced))
+                and (
+                    not isinstance(replaced, CoreInterrupt)
+                    or not replaced
+                    or self._is_suppressed(replaced)
+                )
             ):
                 replaced = replaced.__context__
             if (
